@@ -280,6 +280,12 @@ def run_case(concepts, case, spec):
                 common.tie(lat2, ctx2)
                 with core.monitor_code():
                     judge_labels(lat2, cap, 'unpickled')
+    if len(ctx.objects) <= 12 and len(ctx.properties) <= 12 and sl.n <= 200:
+        common.interference(concepts, ctx, lat, rng, 15)
+        with core.monitor_code():
+            common.drop_views()
+            judge_labels(lat, cap, 'after_interference')
+        COL.count('asked_again_after_interference')
     old = POOL.older(rng)
     if old is not None:
         with core.monitor_code():
